@@ -428,7 +428,17 @@ class FuncScope(Scope, Location, Resolvable):
     def get_argument(self, ctx, arg):
         # type: (EvalCtx, ArgumentName) -> Object | None
         if arg.idx == [0] and isinstance(self.parent, ClassScope):
-            return self.parent.resolve(ctx).call(ctx)
+            cls = self.parent.resolve(ctx)
+            for d in self.decorator_list:
+                v = ctx.evaluate(d)
+                if isinstance(v, RuntimeName) and v.is_builtin:
+                    if v.name == 'classmethod':
+                        # (bound to the class: what an instance has of its own
+                        # is not found through it)
+                        return cls
+                    if v.name == 'staticmethod':
+                        return None
+            return cls.call(ctx)
         return None
 
     def resolve(self, ctx):
